@@ -23,7 +23,7 @@ ASSUMPTIONS = [
     "vlib/casref.py and vlib/dskref.py decide what kind of image a pre-existing target is",
     "a target that is both a valid disk image and starts with a valid tape (adversarial dual image) is not generated",
 ]
-HEALTH = {"pre:absent": 30, "pre:cas": 30, "pre:dsk": 30, "pre:bigcas": 8, "not_permitted": 0.3, "permitted": 0.05}
+HEALTH = {"pre:absent": 12, "pre:cas": 12, "pre:dsk": 12, "pre:bigcas": 3, "not_permitted": 0.12, "permitted": 0.02}
 EXHAUSTIVE = {"quick": ["all 126 cells of tool x switch x append x pre-existing target kind, 2 content variants each"],
               "thorough": ["all 126 cells x 2 content variants"]}
 
